@@ -702,3 +702,120 @@ def canary_avail(u: U):
     out = u.call(f, c, ko[K])
     if out.ok:
         u.check("C07.canary", Implies(Or(c._limit == 0, card(c._acquired) < c._limit), out.value >= 1), "false")
+
+
+# ---------------------------------------------------------------------------------------------------------------
+# closing the connector
+
+
+@unit("C07", "close_immediately", functions=[f"{MOD}:{CLS}._close_immediately"])
+def close_immediately_unit(u: U):
+    """_close_immediately for every shape of the pool (0..n idle connections under two keys, 0..2 in use, 0..3 queued
+    waiters per key, each waiter future pending / already cancelled / already resolved - a request cancelled a moment ago
+    leaves its cancelled future in the queue until its task runs): every connection the connector holds is closed,
+    every waiter is failed (none is left pending), the books are emptied, and nothing escapes - whatever the state of the
+    individual futures"""
+    import asyncio
+    import collections
+
+    from pyvc.registry import width
+
+    log = []
+
+    class _Fut:
+        def __init__(self, tag, state):
+            self.tag, self.state = tag, state  # pending | cancelled | done
+
+        def done(self):
+            return self.state != "pending"
+
+        def cancelled(self):
+            return self.state == "cancelled"
+
+        def cancel(self, msg=None):
+            if self.state != "pending":
+                return False
+            self.state = "cancelled"
+            return True
+
+        def set_exception(self, exc):
+            if self.state != "pending":
+                raise asyncio.InvalidStateError("invalid state")
+            self.state = "failed"
+
+        def set_result(self, v):
+            if self.state != "pending":
+                raise asyncio.InvalidStateError("invalid state")
+            self.state = "done"
+
+    class _T:
+        def get_extra_info(self, name):
+            return None
+
+        def abort(self):
+            log.append(("transport.abort", self))
+
+    class _Proto:
+        def __init__(self, tag):
+            self.tag = tag
+            self.transport = _T()
+            self.closed = None
+            self.closed_calls = 0
+
+        def close(self):
+            self.closed_calls += 1
+
+        def abort(self):
+            self.closed_calls += 1
+
+    keys = ["K", "O"]
+    nmax = width(2, 3)
+    conns = {}
+    pooled = []
+    for k in keys:
+        n = u.choose(nmax + 1, f"idle.{k}")
+        if n:
+            conns[k] = collections.deque()
+            for i in range(n):
+                p = _Proto(f"idle-{k}-{i}")
+                pooled.append(p)
+                conns[k].append((p, 0.0))
+    acquired = set()
+    in_use = [_Proto(f"used-{i}") for i in range(u.choose(3, "in_use"))]
+    acquired.update(in_use)
+    waiters = collections.defaultdict(collections.OrderedDict)
+    futs = []
+    for k in keys:
+        for i in range(u.choose(width(3, 4) + 1 if k == "K" else 2, f"waiters.{k}")):
+            f_ = _Fut(f"w-{k}-{i}", ("pending", "cancelled", "done")[u.choose(3, f"w-{k}-{i}.state")])
+            futs.append((f_, f_.state))
+            waiters[k][f_] = None
+
+    class _Handle:
+        def __init__(self):
+            self.cancelled = False
+
+        def cancel(self):
+            self.cancelled = True
+
+    h1 = _Handle() if u.choose(2, "cleanup_handle") else None
+    c = u.obj(CLS, {"_closed": False, "_loop": type("L", (), {"is_closed": staticmethod(lambda: False)})(),
+                    "_cleanup_handle": h1, "_cleanup_closed_handle": None, "_conns": conns, "_acquired": acquired,
+                    "_cleanup_closed_transports": [], "_waiters": waiters}, {}, shared=False,
+              init=(MOD, f"{CLS}.__init__", (), {}), real=(MOD, CLS))
+    f = u.load(MOD, f"{CLS}._close_immediately")
+    for k_ in range(8):
+        u.loop(fid("_close_immediately"), k_, unroll=True, bound=16)
+    out = u.call(f, c)
+    u.check("C07.close.total", out.ok,
+            f"closing never fails, whatever state the queued futures are in: {out.exc!r}" if not out.ok else "ok",
+            witness={"waiter_states": [s0 for _, s0 in futs]})
+    u.check("C07.close.every_waiter_failed", all(f_.state != "pending" for f_, _ in futs),
+            "no queued request is left waiting on a closed connector: every waiter future is cancelled or failed - also "
+            "the ones queued behind a future that was already cancelled",
+            witness={"before": [s0 for _, s0 in futs], "after": [f_.state for f_, _ in futs]})
+    u.check("C07.close.every_connection_closed", all(p.closed_calls >= 1 for p in pooled + in_use),
+            "every idle and every in-use connection is closed")
+    fs = fields(c)
+    u.check("C07.close.books_emptied", fs["_closed"] is True and not fs["_conns"] and not fs["_acquired"] and not fs["_waiters"]
+            and (h1 is None or h1.cancelled), "closed flag set, pool, in-use set and waiter queues emptied, cleanup timer cancelled")
